@@ -772,6 +772,10 @@ func (p c16) Exec(t *core.Trace) *core.Result {
 	}
 	muts = append(muts, mut{"extra-file", &overlayFS{base: dfs, kind: "extrafile", path: "ZZEXTRA.TXT"}})
 	muts = append(muts, mut{"extra-directory", &overlayFS{base: dfs, kind: "extradir", path: "ZZDIR"}})
+	// an extra entry on a target that also holds files with excluded names (which a comparison skips - and must
+	// skip on their own, not together with what follows them)
+	muts = append(muts, mut{"extra-file-after-excluded-name", &overlayFS{base: &overlayFS{base: dfs, kind: "extrafile", path: ".DS_Store"}, kind: "extrafile", path: "ZZEXTRA.TXT"}})
+	muts = append(muts, mut{"extra-file-before-excluded-name", &overlayFS{base: &overlayFS{base: dfs, kind: "extrafile", path: "lost+found"}, kind: "extrafile", path: "AAEXTRA.TXT"}})
 	for _, m := range muts {
 		res.Evals++
 		res.Steps++
